@@ -109,3 +109,40 @@ def gen_large_mcase(rng, width="maybe"):
         j = rng.randrange(2, len(tr))
         tr[j] = [tr[j][0] + 8.0, tr[j][1] + 5.0]
     return {"map": m, "trace": tr, "cfg": cfg, "large": True}
+
+
+DIST_KEYS = ("obs_noise", "obs_noise_ne", "dist_noise", "dist_noise_ne", "max_dist", "max_dist_init")
+
+
+def scale_case(case, sc):
+    """scale a planar matcher-level case exactly (sc a power of two): coordinates of the map, of every trace the case carries
+    and all distance parameters; probabilities and paths are unchanged by construction of the models."""
+    case["map"] = gen.transform_map(case["map"], sc)
+    case["trace"] = gen.transform_trace(case["trace"], sc)
+    if case.get("pre_trace"):
+        case["pre_trace"] = gen.transform_trace(case["pre_trace"], sc)
+    for op in case.get("ops") or []:
+        if isinstance(op, dict) and op.get("trace"):
+            op["trace"] = gen.transform_trace(op["trace"], sc)
+    for key in DIST_KEYS:
+        if case["cfg"].get(key) is not None:
+            case["cfg"][key] *= sc
+    if case.get("links"):
+        case["links"] *= sc
+    return case
+
+
+def scale_dimension(p, exps=(7, 10, 14, 17)):
+    """decorator for gen_case: a fraction p of the planar cases is expressed in a small coordinate unit (degrees, kilometres,
+    normalised coordinates): everything scaled by 2^-k.  No structural or differential oracle depends on the unit."""
+    def deco(gen_case):
+        def wrapped(rng, i, tier):
+            case = gen_case(rng, i, tier)
+            if (isinstance(case, dict) and isinstance(case.get("map"), dict) and not case["map"].get("latlon") and "cfg" in case
+                    and "tiny" not in case and not case.get("rebuilt") and rng.random() < p):
+                k = rng.choice(exps)
+                scale_case(case, 2.0 ** -k)
+                case["tiny"] = k
+            return case
+        return wrapped
+    return deco
